@@ -192,6 +192,7 @@ func runC05(r *Run) {
 	c05Valid(r)
 	c05ValidationDominates(r, site)
 	c05ReaderCompleteness(r)
+	c05Imports(r, site)
 }
 
 // promotionAtoms classifies the facts of a path of the decision function.
